@@ -2,7 +2,7 @@
    rejected Adds. *)
 From Coq Require Import ZArith NArith List Bool Lia Arith.
 From FV.Model Require Import Bytes Bson Metrics Codec Collector Wf RoundTrip CollectorOk.
-From FV.Proofs Require Import BytesProofs BsonProofs MetricsProofs CodecChunk CodecProofs CollectorHyps CollectorBase
+From FV.Proofs Require Import BytesProofs BsonProofs MetricsProofs CodecChunk CodecProofs CollectorBase
   CollectorKinds CollectorInv.
 Import ListNotations.
 Open Scope Z_scope.
@@ -163,10 +163,10 @@ Qed.
 End Log.
 
 (* ------------------------------------------------------------------ from ops_ok *)
-Lemma ops_ok_env : forall k ops, ops_ok k ops -> env_ok (added ops) k.
+Lemma ops_ok_env : forall k ops, ops_ok k ops -> env_ok (ops_added ops) k.
 Proof. intros k ops [Hwf Hdist]. split; assumption. Qed.
 
-Lemma ops_ok_each : forall ops sub, (forall o, In o sub -> In o ops) -> Forall (op_ok (added ops)) sub.
+Lemma ops_ok_each : forall ops sub, (forall o, In o sub -> In o ops) -> Forall (op_ok (ops_added ops)) sub.
 Proof.
   intros ops sub Hsub. apply Forall_forall. intros o Ho. destruct o as [d now| | | | |m|]; cbn [op_ok]; try exact I.
   exists now. apply Hsub. exact Ho.
@@ -181,17 +181,17 @@ Theorem c07_log : forall k n ops, compressing k = true -> 1 <= n < 2 ^ 31 -> ops
   c07_run deflate inflate None k n ops = true.
 Proof.
   intros k n ops Hk Hn Hok. unfold c07_run.
-  apply (c07_from deflate inflate inflate_deflate (added ops) k n Hk (ops_ok_env k ops Hok) Hn ops _ [] []).
+  apply (c07_from deflate inflate inflate_deflate (ops_added ops) k n Hk (ops_ok_env k ops Hok) Hn ops _ [] []).
   - apply inv_init; [exact Hk|lia].
   - apply ops_ok_each. intros o Ho. exact Ho.
 Qed.
 
 Lemma reach_inv : forall k n ops sub, compressing k = true -> 1 <= n -> ops_ok k ops ->
   (forall o, In o sub -> In o ops) ->
-  exists gsw gsp, INV deflate (added ops) k n (reach deflate k n sub) gsw gsp.
+  exists gsw gsp, INV deflate (ops_added ops) k n (c07_reach deflate k n sub) gsw gsp.
 Proof.
-  intros k n ops sub Hk Hn Hok Hsub. unfold reach.
-  apply (run_inv deflate (added ops) k n Hk (ops_ok_env k ops Hok) Hn sub _ [] []).
+  intros k n ops sub Hk Hn Hok Hsub. unfold c07_reach.
+  apply (run_inv deflate (ops_added ops) k n Hk (ops_ok_env k ops Hok) Hn sub _ [] []).
   - apply inv_init; assumption.
   - apply ops_ok_each. exact Hsub.
 Qed.
@@ -199,7 +199,7 @@ Qed.
 (* a rejected Add changes nothing *)
 Theorem c07_rejected_add : forall k n ops o, compressing k = true -> 1 <= n < 2 ^ 31 -> ops_ok k (ops ++ [o]) ->
   (o = OAddBad \/ exists d now, o = OAdd d now) ->
-  let st := reach deflate k n ops in
+  let st := c07_reach deflate k n ops in
   let st' := fst (step deflate st o) in
   obs_add_ok (snd (step deflate st o)) = false ->
   (exists l, c07_contents deflate inflate st = Some l /\ c07_contents deflate inflate st' = Some l) /\
@@ -209,9 +209,9 @@ Proof.
   pose proof (ops_ok_env _ _ Hok) as Henv.
   destruct (reach_inv k n (ops ++ [o]) ops Hk ltac:(lia) Hok) as (gsw & gsp & Hinv).
   { intros x Hx. apply in_or_app. left. exact Hx. }
-  assert (Hop : op_ok (added (ops ++ [o])) o).
+  assert (Hop : op_ok (ops_added (ops ++ [o])) o).
   { destruct o as [d now| | | | |m|]; cbn [op_ok]; try exact I. exists now. apply in_or_app. right. left. reflexivity. }
-  destruct (inv_step deflate (added (ops ++ [o])) k n _ gsw gsp o Hk Henv ltac:(lia) Hinv Hop) as (gsw' & gsp' & Hinv' & Hrel).
+  destruct (inv_step deflate (ops_added (ops ++ [o])) k n _ gsw gsp o Hk Henv ltac:(lia) Hinv Hop) as (gsw' & gsp' & Hinv' & Hrel).
   rewrite (inv_contents deflate inflate inflate_deflate _ k n _ gsw gsp Hk Henv Hn Hinv).
   rewrite (inv_contents deflate inflate inflate_deflate _ k n _ gsw' gsp' Hk Henv Hn Hinv').
   destruct Ho as [->|(d & now & ->)].
